@@ -735,6 +735,8 @@ struct InlineInfo {
     recv: u8,
     /// I1r: the body with its early exits written out as branches (None: shape not handled)
     body_flat: Option<String>,
+    /// unit id of the helper (`auto:<file>:<name>`)
+    hid: String,
 }
 
 impl<'a> FileCtx<'a> {
@@ -1381,6 +1383,7 @@ impl<'a, 'b, 'ast> Visit<'ast> for BodyV<'a, 'b> {
                         for t in info.taints.iter() {
                             self.taint(format!("(in `{n}`, written out here) {t}"));
                         }
+                        self.taint(format!("@inlined {}", info.hid));
                         for a in e.args.iter() {
                             self.visit_expr(a);
                         }
@@ -1559,6 +1562,7 @@ impl<'a, 'b, 'ast> Visit<'ast> for BodyV<'a, 'b> {
                     for t in info.taints.iter() {
                         self.taint(format!("(in `{name}`, written out here) {t}"));
                     }
+                    self.taint(format!("@inlined {}", info.hid));
                     self.visit_expr(&e.receiver);
                     for a in e.args.iter() {
                         self.visit_expr(a);
@@ -1955,7 +1959,9 @@ impl<'a, 'b, 'ast> Visit<'ast> for BodyV<'a, 'b> {
             let arm = &e.arms[i];
             let next = &e.arms[i + 1];
             if let Some((if_tok, g)) = &arm.guard {
-                let covers = next.guard.is_none() && (matches!(&next.pat, Pat::Wild(_)) || pat_wild(&arm.pat) == pat_wild(&next.pat))
+                // (the next arm must not bind anything: its body is copied into this arm)
+                let next_plain = pat_wild(&next.pat) == next.pat.to_token_stream().to_string().replace(' ', "");
+                let covers = next.guard.is_none() && (matches!(&next.pat, Pat::Wild(_)) || (next_plain && pat_wild(&arm.pat) == pat_wild(&next.pat)))
                     && !leaves_closure_only_break(&next.body);
                 if covers {
                     let it = br(if_tok.span);
@@ -2138,7 +2144,7 @@ impl<'a, 'b, 'ast> Visit<'ast> for BodyV<'a, 'b> {
                         }
                     }
                 }
-                self.fc.inline_map.insert(key.clone(), InlineInfo { params, ret: None, body, world: u.world.clone(), owner: None, taints: nested_taints, leaves: 0, ret_norm: String::new(), is_async: false, recv: 0, body_flat: None });
+                self.fc.inline_map.insert(key.clone(), InlineInfo { params, ret: None, body, world: u.world.clone(), owner: None, taints: nested_taints, leaves: 0, ret_norm: String::new(), is_async: false, recv: 0, body_flat: None, hid: u.id.clone() });
                 // its own copy keeps the signature only (it is verified where it is written out)
                 let st = range_of(f).0;
                 self.fc.edit_ord(st, st, "#[verifier::external_body]\n", "I1.nested_tail", -31);
@@ -2229,7 +2235,21 @@ fn process_fn(
     // whose shim promises nothing taints the unit)
     if let Some(b) = block {
         let mut ms: HashSet<String> = HashSet::new();
-        MethodScan { out: &mut ms }.visit_block(b);
+        struct MCalls<'o> { out: &'o mut HashSet<String> }
+        impl<'o, 'ast> Visit<'ast> for MCalls<'o> {
+            fn visit_expr_method_call(&mut self, e: &'ast ExprMethodCall) {
+                self.out.insert(format!("{}/{}", e.method, e.args.len()));
+                visit::visit_expr_method_call(self, e);
+            }
+            fn visit_macro(&mut self, m: &'ast Macro) {
+                if let Ok(args) = m.parse_body_with(Punctuated::<Expr, Token![,]>::parse_terminated) {
+                    for a in args.iter() {
+                        self.visit_expr(a);
+                    }
+                }
+            }
+        }
+        MCalls { out: &mut ms }.visit_block(b);
         struct PathCalls<'o> { out: &'o mut HashSet<String> }
         impl<'o, 'ast> Visit<'ast> for PathCalls<'o> {
             fn visit_expr_call(&mut self, e: &'ast ExprCall) {
@@ -2652,7 +2672,6 @@ fn process_fn(
     for k in ul {
         if !u.drop_body {
             bv.fc.degraded.push(format!("unit {}: contract names loop #{k} but the function has no such loop (annotation dropped)", u.id));
-            bv.fc.taints.push(format!("{}|the invariant of loop #{k} was dropped (no such loop any more)", u.id));
         }
     }
     for k in uc {
@@ -2664,7 +2683,6 @@ fn process_fn(
     for k in ut {
         if !u.drop_body {
             bv.fc.degraded.push(format!("unit {}: contract names closure `{k}` but the function has none (annotation dropped)", u.id));
-            bv.fc.taints.push(format!("{}|the contract of closure `{k}` was dropped (no such closure any more)", u.id));
         }
     }
     if !u.drop_body && bv.loop_no > bv.used_loops.len() {
@@ -2673,7 +2691,9 @@ fn process_fn(
         let start = if let Some(a) = attrs.first() { range_of(a).0 } else { range_of(sig).0 };
         let vs = range_of(_vis);
         let st = if vs.1 > vs.0 { vs.0.min(start) } else { start };
-        bv.fc.edit_ord(st, st, "#[verifier::exec_allows_no_decreases_clause]\n".to_string(), "W.no_decreases", -21);
+        // (and with what is known before the loop about everything the loop does not modify)
+        let iso = if u.attrs.contains("loop_isolation") { "" } else { "#[verifier::loop_isolation(false)]\n" };
+        bv.fc.edit_ord(st, st, format!("{iso}#[verifier::exec_allows_no_decreases_clause]\n"), "W.no_decreases", -21);
         if !u.id.starts_with("auto:") {
             bv.fc.degraded.push(format!("unit {}: {} loop(s) without a contract (no invariant; termination not checked)", u.id, bv.loop_no - bv.used_loops.len()));
         }
@@ -3594,7 +3614,7 @@ fn main() {
                     let mut el = Elim { src: &src, edits: &scratch.edits, try_kind: tk, fuel: 48, bad: std::cell::Cell::new(false) };
                     el.seq(&[WorkItem::Stmts(&f.block.stmts, true)]).filter(|_| !el.bad.get())
                 } else { None };
-                fc.inline_map.insert(name.clone(), InlineInfo { body_flat, recv: 0, leaves: lk, ret_norm: f.sig.output.to_token_stream().to_string(), is_async: f.sig.asyncness.is_some(), params, ret, body, world: u.world.clone(), owner: None, taints: scratch.taints.iter().map(|t| t.split_once('|').map(|x| x.1.to_string()).unwrap_or_default()).collect() });
+                fc.inline_map.insert(name.clone(), InlineInfo { hid: u.id.clone(), body_flat, recv: 0, leaves: lk, ret_norm: f.sig.output.to_token_stream().to_string(), is_async: f.sig.asyncness.is_some(), params, ret, body, world: u.world.clone(), owner: None, taints: scratch.taints.iter().map(|t| t.split_once('|').map(|x| x.1.to_string()).unwrap_or_default()).collect() });
                 inline_ats.push(at.clone());
             }
         }
@@ -3677,7 +3697,7 @@ fn main() {
                             let mut el = Elim { src: &src, edits: &scratch.edits, try_kind: tk, fuel: 48, bad: std::cell::Cell::new(false) };
                             el.seq(&[WorkItem::Stmts(&m.block.stmts, true)]).filter(|_| !el.bad.get()).map(|t| subst_idents(&t, &selfmap))
                         } else { None };
-                        fc.inline_map.insert(if recv_kind == 0 { format!("::{name}") } else { format!(".{name}") }, InlineInfo { body_flat, recv: recv_kind, leaves: lk, ret_norm: subst_idents(&m.sig.output.to_token_stream().to_string(), &selfmap), is_async: m.sig.asyncness.is_some(), params, ret, body, world: u.world.clone(), owner: Some(self_ty_key(&im.self_ty)), taints: scratch.taints.iter().map(|t| t.split_once('|').map(|x| x.1.to_string()).unwrap_or_default()).collect() });
+                        fc.inline_map.insert(if recv_kind == 0 { format!("::{name}") } else { format!(".{name}") }, InlineInfo { hid: u.id.clone(), body_flat, recv: recv_kind, leaves: lk, ret_norm: subst_idents(&m.sig.output.to_token_stream().to_string(), &selfmap), is_async: m.sig.asyncness.is_some(), params, ret, body, world: u.world.clone(), owner: Some(self_ty_key(&im.self_ty)), taints: scratch.taints.iter().map(|t| t.split_once('|').map(|x| x.1.to_string()).unwrap_or_default()).collect() });
                         inlined_helpers.push(u.id.clone());
                         inline_ats.push(at.clone());
                     }
